@@ -43,6 +43,9 @@ def judge(sem, obs, gtypes=None):
         return ("defined-fail", st)
     assert st == "done", st
     if not obs["ok"]:
+        if obs.get("fuel") and (obs.get("exc") == "RecursionError" or obs.get("msg") == "recursion depth"):
+            # the host's recursion limit, not a property of the program: no statement promises unbounded call depth
+            return ("unjudged", "call depth beyond the host's limit")
         if obs.get("fuel"):
             return ("vm-diverges", f"the reference finishes after {sem['steps']} steps, the VM exceeded its step budget ({obs['steps']} instructions)")
         return ("vm-error", f"{obs['exc']}: {obs['msg']} in {obs['where']}")
